@@ -150,3 +150,57 @@ def tsan_leg(name, cmd, cases, tier, seed, scratch, shards=8):
                 L.res.notes.append(dict(tsan_report_without_bigtools_frame=k, first=txt[:600]))
         return L.done(dict(tsan_cases_executed=ended, tsan_reports=len(reports)))
     return dict(name=name, run=run)
+
+
+def memcheck_c10_leg(tier, seed, scratch, nfiles=240):
+    """valgrind memcheck over the readq workload on independently encoded files (libdeflate FFI is reached with
+    buffer sizes taken from header fields). Supporting evidence: bigtools has no `unsafe`."""
+    def run(leg):
+        import c10
+        import hashlib
+        import sys
+        sys.path.insert(0, "/verif")
+        from pybbi import encode as E
+        L = pyleg.PyLeg("c10-memcheck", cmd="c10mem", seed=seed, tier=tier)
+        qlines = []
+        paths = []
+        for index in range(nfiles):
+            content, layout = c10.make_case(seed + 7919, index)
+            data, model = E.encode_with_model(content, layout)
+            path = os.path.join(scratch, "c10m_%d.%s" % (index, "bw" if content["kind"] == "bigwig" else "bb"))
+            open(path, "wb").write(data)
+            paths.append(path)
+            qlines.append("FILE\t" + path)
+            for op in c10.make_queries(content, layout, model, seed + 7919, index):
+                qlines.append("\t".join(str(x) for x in op))
+        qpath = os.path.join(scratch, "c10m_q.txt")
+        open(qpath, "w", encoding="utf-8").write("\n".join(qlines) + "\n")
+        t0 = time.time()
+        try:
+            p = subprocess.run(["valgrind", "-q", "--error-exitcode=9", "--leak-check=no", runner.HARNESS_BIN["release"], "readq", "--arg", qpath],
+                               stdout=subprocess.PIPE, stderr=subprocess.PIPE, text=True, errors="replace", timeout=2400, env=dict(os.environ, RUST_BACKTRACE="0"))
+        except subprocess.TimeoutExpired:
+            L.case(dict(tool="valgrind memcheck", files=nfiles), hash="memcheck-timeout", inconclusive="valgrind run timed out")
+            return L.done()
+        finally:
+            for f in paths + [qpath]:
+                try:
+                    os.unlink(f)
+                except OSError:
+                    pass
+        answers = sum(1 for l in p.stdout.splitlines() if '"op"' in l)
+        blocks = [b for b in re.split(r"\n(?===\d+== \S)", p.stderr) if re.search(r"==\d+== (Invalid|Conditional|Use of uninit|Syscall param|Mismatched|Source and dest)", b)]
+        sigs = {}
+        for b in blocks:
+            kind = re.search(r"==\d+== ([A-Z][^\n]{0,60})", b).group(1).split(" of size")[0].strip().replace(" ", "_")[:40]
+            fr = re.search(r"(bigtools::[\w:]+|libdeflate\w*)", b)
+            sigs.setdefault((kind, fr.group(1)[:60] if fr else "no_bigtools_frame"), b[:2500])
+        L.case(dict(tool="valgrind memcheck", workload="readq over %d independently encoded files" % nfiles), hash="memcheck-%d" % seed, nontrivial=answers >= 2,
+               counts={"memcheck_answers_produced": answers, "memcheck_error_blocks": len(blocks)},
+               violations=[("memcheck_" + k, f, dict(report=t)) for (k, f), t in sigs.items()])
+        if answers > 1:
+            L.res.evaluations += answers - 1
+            if not L.res.violations:
+                L.res.held += answers - 1
+        return L.done(dict(memcheck_wall_s=round(time.time() - t0, 1), memcheck_rc=p.returncode))
+    return dict(name="c10-memcheck", run=run)
